@@ -327,6 +327,20 @@ func c09Run(c *fw.Case, env *fw.Env) *fw.Obs {
 			o.Violate("sender-ref-changed/"+class, "ref %s on the sending side changed", name)
 		}
 	}
+	if w.second >= 0 && out.err == nil {
+		// two remotes on one host: each tracking ref stands where its own remote's branch stands
+		o.Ev("fetches_from_two_remotes_on_one_host", 1)
+		pl := w.plans[0]
+		for _, x := range []struct {
+			remote string
+			at     int
+		}{{"origin", pl.Remote}, {"second", w.second}} {
+			name := "remotes/" + x.remote + "/" + pl.Name
+			if got := out.refsAfter.vals[name]; got != string(w.h.sums[x.at]) {
+				o.Violate("tracking-ref-not-at-its-remotes-value/"+class, "%s is at %x; the branch stands at %x on that remote (%v)", name, got, w.h.sums[x.at], args)
+			}
+		}
+	}
 	// an immediately repeated exchange transfers nothing and changes nothing
 	if out.err == nil && p.Op != "pull" && !strings.HasSuffix(class, "/two-sources-one-destination") {
 		// (with two sources for one destination the configuration itself is ambiguous: a repeat may pick the other one)
@@ -467,6 +481,10 @@ func init() {
 			// fixed: first push to a remote that has no ref yet, from a repository that tracks another remote
 			for i := 0; i < 8; i++ {
 				l.Add("push", netParams{Op: "push", N: 6 + i%5, BaseRows: 4, Branches: 1 + i%2, Rel: "new", OtherTrack: true, MaxPack: packs[i%len(packs)]}, int64(2550+i))
+			}
+			// fixed: fetch --all from two remotes that differ only in the path of their URL
+			for i := 0; i < 8; i++ {
+				l.Add("fetch", netParams{Op: "fetch", N: 6 + i%5, BaseRows: 4, Branches: 1, Rel: []string{"new", "remote-ahead"}[i%2], All: true, TwoRemotes: true, Force: "refspec"}, int64(2570+i))
 			}
 			// fixed: a branch and a tag of the same name sent to one destination by two refspecs
 			for i := 0; i < 8; i++ {
